@@ -177,6 +177,17 @@ impl FixtureDatabase {
         })
     }
 
+    /// Order same-named definitions of one priority tier by where they are, so that the
+    /// choice among them never depends on registration order. Paths are compared from the
+    /// file name upwards, which keeps the order stable when the workspace is moved.
+    fn location_order(a: &FixtureDefinition, b: &FixtureDefinition) -> std::cmp::Ordering {
+        a.file_path
+            .components()
+            .rev()
+            .cmp(b.file_path.components().rev())
+            .then(a.line.cmp(&b.line))
+    }
+
     /// Internal helper that implements pytest priority rules with a custom filter.
     /// Priority order:
     /// 1. Same file (highest priority, last definition wins)
@@ -286,14 +297,18 @@ impl FixtureDatabase {
             "No fixture {} found in conftest hierarchy, checking plugins",
             fixture_name
         );
-        for def in definitions.iter() {
-            if def.is_plugin && !def.is_third_party && filter(def) {
-                info!(
-                    "Found plugin fixture {} via pytest11 entry point: {:?}",
-                    fixture_name, def.file_path
-                );
-                return Some(def.clone());
-            }
+        // Several plugins may define the name: pick one by its location, never by the order
+        // in which the scan (or a later re-analysis) happened to register them.
+        if let Some(def) = definitions
+            .iter()
+            .filter(|def| def.is_plugin && !def.is_third_party && filter(def))
+            .min_by(|a, b| Self::location_order(a, b))
+        {
+            info!(
+                "Found plugin fixture {} via pytest11 entry point: {:?}",
+                fixture_name, def.file_path
+            );
+            return Some(def.clone());
         }
 
         // Priority 4: Third-party fixtures (site-packages)
@@ -301,14 +316,16 @@ impl FixtureDatabase {
             "No fixture {} found in plugins, checking third-party",
             fixture_name
         );
-        for def in definitions.iter() {
-            if def.is_third_party && filter(def) {
-                info!(
-                    "Found third-party fixture {} in site-packages: {:?}",
-                    fixture_name, def.file_path
-                );
-                return Some(def.clone());
-            }
+        if let Some(def) = definitions
+            .iter()
+            .filter(|def| def.is_third_party && filter(def))
+            .min_by(|a, b| Self::location_order(a, b))
+        {
+            info!(
+                "Found third-party fixture {} in site-packages: {:?}",
+                fixture_name, def.file_path
+            );
+            return Some(def.clone());
         }
 
         debug!(
@@ -605,27 +622,37 @@ impl FixtureDatabase {
         }
 
         // Priority 3: Plugin fixtures (pytest11 entry points, e.g. workspace editable installs)
+        // (same location-based choice among several plugins as find_closest_definition)
         for entry in self.definitions.iter() {
             let fixture_name = entry.key();
-            for def in entry.value().iter() {
-                if def.is_plugin
-                    && !def.is_third_party
-                    && !seen_names.contains(fixture_name.as_str())
-                {
-                    available_fixtures.push(def.clone());
-                    seen_names.insert(fixture_name.clone());
-                }
+            if seen_names.contains(fixture_name.as_str()) {
+                continue;
+            }
+            if let Some(def) = entry
+                .value()
+                .iter()
+                .filter(|def| def.is_plugin && !def.is_third_party)
+                .min_by(|a, b| Self::location_order(a, b))
+            {
+                available_fixtures.push(def.clone());
+                seen_names.insert(fixture_name.clone());
             }
         }
 
         // Priority 4: Third-party fixtures from site-packages
         for entry in self.definitions.iter() {
             let fixture_name = entry.key();
-            for def in entry.value().iter() {
-                if def.is_third_party && !seen_names.contains(fixture_name.as_str()) {
-                    available_fixtures.push(def.clone());
-                    seen_names.insert(fixture_name.clone());
-                }
+            if seen_names.contains(fixture_name.as_str()) {
+                continue;
+            }
+            if let Some(def) = entry
+                .value()
+                .iter()
+                .filter(|def| def.is_third_party)
+                .min_by(|a, b| Self::location_order(a, b))
+            {
+                available_fixtures.push(def.clone());
+                seen_names.insert(fixture_name.clone());
             }
         }
 
